@@ -664,9 +664,9 @@ def broadcast_and_apply(  # noqa: C901
                     return False
             elif isinstance(x, ak.layout.RegularArray):
                 if x.size == 0:
-                    my_offsets = nplike.empty(0, dtype=np.int64)
+                    my_offsets = nplike.zeros(len(x) + 1, dtype=np.int64)
                 else:
-                    my_offsets = nplike.arange(0, len(x.content), x.size)
+                    my_offsets = nplike.arange(0, len(x) * x.size + 1, x.size)
                 if offsets is None:
                     offsets = my_offsets
                 elif not nplike.array_equal(offsets, my_offsets):
@@ -999,6 +999,9 @@ def broadcast_and_apply(  # noqa: C901
                         else:
                             lencontent = nplike.max(stops)
                             nextinputs.append(x.content[:lencontent])
+
+                    elif isinstance(x, ak.layout.RegularArray):
+                        nextinputs.append(x.content[: len(x) * x.size])
 
                     else:
                         nextinputs.append(x)
